@@ -374,13 +374,25 @@ func c06Params(e *Env) {
 	}
 	info := ar.Pkg.TypesInfo
 	ok := false
+	// `n := countParams(path)` as a statement of its own, followed by the plain if
+	var splitDef *ast.AssignStmt
 	for _, st := range ar.Decl.Body.List {
+		if d, isAs := st.(*ast.AssignStmt); isAs && len(d.Rhs) == 1 && len(d.Lhs) == 1 {
+			if c, isC := unparen(d.Rhs[0]).(*ast.CallExpr); isC && esp.Is(calleeOf(info, c), pkgRoute, "", "countParams") {
+				splitDef = d
+			}
+		}
 		is, isIf := st.(*ast.IfStmt)
-		if !isIf || is.Init == nil {
+		if !isIf {
 			continue
 		}
-		as, isAs := is.Init.(*ast.AssignStmt)
-		if !isAs || len(as.Rhs) != 1 {
+		var as *ast.AssignStmt
+		if is.Init != nil {
+			as, _ = is.Init.(*ast.AssignStmt)
+		} else {
+			as = splitDef
+		}
+		if as == nil || len(as.Rhs) != 1 {
 			continue
 		}
 		c, isC := unparen(as.Rhs[0]).(*ast.CallExpr)
@@ -388,6 +400,9 @@ func c06Params(e *Env) {
 			continue
 		}
 		cnt := usedVar(info, as.Lhs[0])
+		if id, isID := as.Lhs[0].(*ast.Ident); isID && cnt == nil {
+			cnt, _ = info.Defs[id].(*types.Var)
+		}
 		lo, hi, isLess := normLess(is.Cond)
 		if !isLess || usedVar(info, hi) != cnt || usedVar(info, lo) != mp {
 			continue
